@@ -37,6 +37,28 @@ LEVEL_NOTE = ('theorems are about expression programs and the column/step models
 TECHNIQUE = 'Coq proof (dimension typing => scale covariance) + multi-scale differential oracle on the implementation + AST call-site scan'
 
 TOL = 1e-9
+# Rounding noise is not scale-invariant: the linear algebra of a step (np.linalg.inv of the implicit matrix, spectral
+# transforms) mixes fields whose non-dimensional magnitudes differ by many decades under an exotic scale, so a field
+# can pick up LEAK * (largest non-dimensional magnitude in that run) of noise.  This absolute allowance (converted to
+# SI with the field's own factor) is added to the relative tolerance; it is ~1e-10 relative for well-scaled runs.
+LEAK = 1e-13
+
+
+class Out(dict):
+    """SI results of one run, with a per-field absolute rounding allowance."""
+    def __init__(self, *a, **k):
+        super().__init__(*a, **k); self.atol = {}
+
+    def merge(self, other):
+        self.update(other); self.atol.update(getattr(other, 'atol', {})); return self
+
+
+def _gmax(*trees):
+    return max([dyn.tree_maxabs(t) for t in trees] + [0.0])
+
+
+def _fac(specs, unit):
+    return abs(float(_D(specs, 1.0, unit)))
 
 # dimension vectors (length, time, mass, temperature) and the pint unit used for conversion
 DIMS = {
@@ -101,16 +123,15 @@ def generate(ctx):
         yield 'expr', {'scale': _rand_scale(rng), 'seed': seed()}
     # whole-model oracles
     if quick:
-        pes = [('dry', ['imex_rk_sil3', 'crank_nicolson_rk2'], ['exponential', 'diffusion'], 2, 'split'),
+        pes = [('dry', ['imex_rk_sil3', 'crank_nicolson_rk2'], ['exponential', 'diffusion'], 2, 'all'),
                ('moist', ['crank_nicolson_rk3'], ['exponential'], 2, 'split'),
-               ('cloud', ['backward_forward_euler'], ['diffusion'], 1, 'blockwise'),
-               ('time', ['crank_nicolson_rk4'], [], 1, 'stacked')]
+               ('cloud', ['backward_forward_euler'], ['diffusion'], 1, 'split'),
+               ('time', ['crank_nicolson_rk4'], [], 1, 'split')]
     else:
         pes = []
         for kind in ('dry', 'time', 'moist', 'cloud'):
             for i, integ in enumerate(dyn.INTEGRATORS):
-                pes.append((kind, [integ], [['exponential', 'diffusion'], [], ['exponential'], ['diffusion']][i % 4], 3,
-                            ['split', 'stacked', 'blockwise'][i % 3]))
+                pes.append((kind, [integ], [['exponential', 'diffusion'], [], ['exponential'], ['diffusion']][i % 4], 3, 'all'))
     for kind, integs, filt, nsteps, method in pes:
         yield 'pe', {'kind': kind, 'integrators': integs, 'filters': filt, 'nsteps': nsteps, 'inverse_method': method,
                      'scales': _scales(ctx, ns), 'seed': seed(), 'K': 3}
@@ -146,7 +167,7 @@ def _cmp(ctx, clause, results, labels, floor=None):
                 ctx.oracle(clause, False, {'field': k, 'scale': lab, 'detail': 'non-finite result'}); continue
             err = float(np.max(np.abs(a - b))) if b.size else 0.0
             # a field that vanishes identically in the reference must vanish (to rounding of the other fields)
-            tol = TOL * sc if sc > 0 else 0.0
+            tol = (TOL * sc if sc > 0 else 0.0) + getattr(res, 'atol', {}).get(k, 0.0) + getattr(ref, 'atol', {}).get(k, 0.0)
             ok = err <= tol
             det = None
             if not ok:
@@ -178,30 +199,39 @@ def _lnps_si(specs, g, lnps):
     return x
 
 
-def _pe_state_si(specs, g, st, prefix):
-    out = {prefix + 'vorticity[1/s]': _D(specs, st.vorticity, '1/second'),
-           prefix + 'divergence[1/s]': _D(specs, st.divergence, '1/second'),
-           prefix + 'temperature_variation[K]': _D(specs, st.temperature_variation, 'kelvin')}
+def _put(out, specs, name, x, unit, gmax):
+    out[name] = _D(specs, x, unit) if unit else np.asarray(x, dtype=np.float64)
+    out.atol[name] = LEAK * gmax * (_fac(specs, unit) if unit else 1.0)
+
+
+def _pe_state_si(specs, g, st, prefix, gmax=0.0):
+    out = Out()
+    _put(out, specs, prefix + 'vorticity[1/s]', st.vorticity, '1/second', gmax)
+    _put(out, specs, prefix + 'divergence[1/s]', st.divergence, '1/second', gmax)
+    _put(out, specs, prefix + 'temperature_variation[K]', st.temperature_variation, 'kelvin', gmax)
     l = _lnps_si(specs, g, st.log_surface_pressure)
     out[prefix + 'log_surface_pressure(mean mode)[log Pa]'] = l[..., :1, :1]
     l0 = l.copy(); l0[..., 0, 0] = 0.0
     out[prefix + 'log_surface_pressure(other modes)'] = l0
+    out.atol[prefix + 'log_surface_pressure(mean mode)[log Pa]'] = LEAK * gmax
+    out.atol[prefix + 'log_surface_pressure(other modes)'] = LEAK * gmax
     for t, v in st.tracers.items():
-        out[prefix + 'tracer ' + t] = np.asarray(v, dtype=np.float64)
+        _put(out, specs, prefix + 'tracer ' + t, v, None, gmax)
     if hasattr(st, 'sim_time'):
-        out[prefix + 'sim_time[s]'] = _D(specs, st.sim_time, 'second')
+        _put(out, specs, prefix + 'sim_time[s]', st.sim_time, 'second', 0.0)
     return out
 
 
-def _pe_tend_si(specs, td, prefix):
-    out = {prefix + 'vorticity[1/s^2]': _D(specs, td.vorticity, '1/second**2'),
-           prefix + 'divergence[1/s^2]': _D(specs, td.divergence, '1/second**2'),
-           prefix + 'temperature_variation[K/s]': _D(specs, td.temperature_variation, 'kelvin/second'),
-           prefix + 'log_surface_pressure[1/s]': _D(specs, td.log_surface_pressure, '1/second')}
+def _pe_tend_si(specs, td, prefix, gmax=0.0):
+    out = Out()
+    _put(out, specs, prefix + 'vorticity[1/s^2]', td.vorticity, '1/second**2', gmax)
+    _put(out, specs, prefix + 'divergence[1/s^2]', td.divergence, '1/second**2', gmax)
+    _put(out, specs, prefix + 'temperature_variation[K/s]', td.temperature_variation, 'kelvin/second', gmax)
+    _put(out, specs, prefix + 'log_surface_pressure[1/s]', td.log_surface_pressure, '1/second', gmax)
     for t, v in td.tracers.items():
-        out[prefix + 'tracer ' + t + '[1/s]'] = _D(specs, v, '1/second')
+        _put(out, specs, prefix + 'tracer ' + t + '[1/s]', v, '1/second', gmax)
     if hasattr(td, 'sim_time'):
-        out[prefix + 'sim_time[s/s]'] = np.asarray(td.sim_time, dtype=np.float64)
+        _put(out, specs, prefix + 'sim_time[s/s]', td.sim_time, None, 0.0)
     return out
 
 
@@ -273,22 +303,24 @@ def r_pe(ctx, a):
     for sv in labels:
         specs, g, c, st, eq = _pe_setup(sv, p, kind)
         dt = float(_ND(specs, p['dt'], 'second'))
-        R['explicit'].append(_pe_tend_si(specs, eq.explicit_terms(st), ''))
-        R['implicit'].append(_pe_tend_si(specs, eq.implicit_terms(st), ''))
-        inv = {}
+        ex = eq.explicit_terms(st); im = eq.implicit_terms(st)
+        R['explicit'].append(_pe_tend_si(specs, ex, '', _gmax(ex)))
+        R['implicit'].append(_pe_tend_si(specs, im, '', _gmax(im)))
+        inv = Out(); g_st = _gmax(st)
         for eta_f in (0.5, -0.25):
             if kind == 'dry':
-                inv.update(_pe_state_si(specs, g, eq.implicit_inverse(st, eta_f * dt, method=a['inverse_method']), f'eta={eta_f}dt: '))
+                for meth in (['split', 'stacked', 'blockwise'] if a['inverse_method'] == 'all' else [a['inverse_method']]):
+                    inv.merge(_pe_state_si(specs, g, eq.implicit_inverse(st, eta_f * dt, method=meth), f'eta={eta_f}dt {meth}: ', g_st))
             else:
-                inv.update(_pe_state_si(specs, g, eq.implicit_inverse(st, eta_f * dt), f'eta={eta_f}dt: '))
+                inv.merge(_pe_state_si(specs, g, eq.implicit_inverse(st, eta_f * dt), f'eta={eta_f}dt: ', g_st))
         R['inverse'].append(inv)
-        steps = {}
+        steps = Out()
         for integ in a['integrators']:
             step = ti.step_with_filters(dyn.integrator(integ, eq, dt), _filters_si(a['filters'], g, specs, p['dt']))
             s = st
             for n in range(a['nsteps']):
                 s = step(s)
-                steps.update(_pe_state_si(specs, g, s, f'{integ} step {n + 1}: '))
+                steps.merge(_pe_state_si(specs, g, s, f'{integ} step {n + 1}: ', (n + 1) * _gmax(s, st)))
         R['steps'].append(steps)
     ctx.count('class:' + kind)
     _cmp(ctx, f'primitive equations ({kind}): explicit_terms equal in SI under every scale', R['explicit'], labels)
@@ -316,17 +348,18 @@ def r_held_suarez(ctx, a):
         specs, g, c, st, eq = _pe_setup(sv, p, 'dry')
         tref = _ND(specs, p['tref'], 'kelvin')
         hs = held_suarez.HeldSuarezForcing(c, specs, tref, **hs_kw)
-        out = _pe_tend_si(specs, hs.explicit_terms(st), 'forcing ')
+        fo = hs.explicit_terms(st)
+        out = _pe_tend_si(specs, fo, 'forcing ', _gmax(fo))
         out['equilibrium_temperature[K]'] = _D(specs, hs.equilibrium_temperature(np.exp(np.asarray(g.to_nodal(st.log_surface_pressure)))), 'kelvin')
         out['kt[1/s]'] = _D(specs, hs.kt(), '1/second'); out['kv[1/s]'] = _D(specs, hs.kv(), '1/second')
         Rf.append(out)
         dt = float(_ND(specs, p['dt'], 'second'))
         comp = ti.compose_equations([eq, hs])
         step = ti.step_with_filters(dyn.integrator(a['integrator'], comp, dt), _filters_si(['exponential'], g, specs, p['dt']))
-        s = st; steps = {}
+        s = st; steps = Out()
         for n in range(a['nsteps']):
             s = step(s)
-            steps.update(_pe_state_si(specs, g, s, f'step {n + 1}: '))
+            steps.merge(_pe_state_si(specs, g, s, f'step {n + 1}: ', (n + 1) * _gmax(s, st)))
         Rs.append(steps)
     _cmp(ctx, 'Held-Suarez forcing: explicit_terms / equilibrium temperature equal in SI under every scale', Rf, labels)
     _cmp(ctx, 'Held-Suarez forced primitive equations: time steps equal in SI under every scale', Rs, labels)
@@ -348,11 +381,15 @@ def r_shallow_water(ctx, a):
     labels = ['default'] + a['scales']
     R = {k: [] for k in ('explicit', 'implicit', 'inverse', 'steps')}
     def tend(specs, t, pre=''):
-        return {pre + 'vorticity[1/s^2]': _D(specs, t.vorticity, '1/second**2'), pre + 'divergence[1/s^2]': _D(specs, t.divergence, '1/second**2'),
-                pre + 'potential[m^2/s^3]': _D(specs, t.potential, u.m ** 2 / u.s ** 3)}
-    def stat(specs, t, pre=''):
-        return {pre + 'vorticity[1/s]': _D(specs, t.vorticity, '1/second'), pre + 'divergence[1/s]': _D(specs, t.divergence, '1/second'),
-                pre + 'potential[m^2/s^2]': _D(specs, t.potential, 'meter**2/second**2')}
+        out = Out(); gm = _gmax(t)
+        _put(out, specs, pre + 'vorticity[1/s^2]', t.vorticity, '1/second**2', gm); _put(out, specs, pre + 'divergence[1/s^2]', t.divergence, '1/second**2', gm)
+        _put(out, specs, pre + 'potential[m^2/s^3]', t.potential, u.m ** 2 / u.s ** 3, gm)
+        return out
+    def stat(specs, t, pre='', gm=0.0):
+        out = Out()
+        _put(out, specs, pre + 'vorticity[1/s]', t.vorticity, '1/second', gm); _put(out, specs, pre + 'divergence[1/s]', t.divergence, '1/second', gm)
+        _put(out, specs, pre + 'potential[m^2/s^2]', t.potential, 'meter**2/second**2', gm)
+        return out
     for sv in labels:
         specs = sw.ShallowWaterSpecs.from_si(scale=_scale(sv), **consts)
         g = dyn.grid(radius=specs.radius); c = dyn.layer_coords(g, K)
@@ -362,8 +399,8 @@ def r_shallow_water(ctx, a):
         eq = sw.ShallowWaterEquations(c, specs, oro, ref)
         dt = float(_ND(specs, p['dt'], 'second'))
         R['explicit'].append(tend(specs, eq.explicit_terms(st))); R['implicit'].append(tend(specs, eq.implicit_terms(st)))
-        R['inverse'].append(stat(specs, eq.implicit_inverse(st, 0.5 * dt)))
-        steps = {}
+        R['inverse'].append(stat(specs, eq.implicit_inverse(st, 0.5 * dt), '', _gmax(st)))
+        steps = Out()
         for integ in a['integrators']:
             if integ == 'leapfrog':
                 filt = [ti.exponential_leapfrog_step_filter(g, dt, tau=float(_ND(specs, 9.0 * p['dt'], 'second')), order=3, cutoff=0.2),
@@ -371,12 +408,12 @@ def r_shallow_water(ctx, a):
                 step = ti.step_with_filters(sw.shallow_water_leapfrog_step(c, dt, specs, ref, oro), filt)
                 s = (st, st)
                 for n in range(a['nsteps']):
-                    s = step(s); steps.update(stat(specs, s[1], f'leapfrog step {n + 1}: '))
+                    s = step(s); steps.merge(stat(specs, s[1], f'leapfrog step {n + 1}: ', (n + 1) * _gmax(s[1], st)))
             else:
                 step = ti.step_with_filters(dyn.integrator(integ, eq, dt), _filters_si(['exponential', 'diffusion'], g, specs, p['dt']))
                 s = st
                 for n in range(a['nsteps']):
-                    s = step(s); steps.update(stat(specs, s, f'{integ} step {n + 1}: '))
+                    s = step(s); steps.merge(stat(specs, s, f'{integ} step {n + 1}: ', (n + 1) * _gmax(s, st)))
         R['steps'].append(steps)
     for k, nm in (('explicit', 'explicit_terms'), ('implicit', 'implicit_terms'), ('inverse', 'implicit_inverse'), ('steps', 'filtered time steps')):
         _cmp(ctx, f'shallow water: {nm} equal in SI under every scale', R[k], labels)
@@ -766,6 +803,21 @@ def scan_repo(repo):
                 for p, dflt in zip(pos, defaults):
                     if p.arg in ('tau', 'dt', 'timescale') and isinstance(dflt, ast.Constant) and isinstance(dflt.value, float):
                         lit.append(f'dinosaur/{mod}.py:{node.lineno}: {node.name}({p.arg}={dflt.value}) is a non-dimensional literal default')
+    litnames = {}
+    for mod, t in trees.items():
+        for node in ast.walk(t):
+            if isinstance(node, ast.FunctionDef):
+                ar = node.args; pos = ar.posonlyargs + ar.args
+                defaults = [None] * (len(pos) - len(ar.defaults)) + list(ar.defaults)
+                for i, (p, dflt) in enumerate(zip(pos, defaults)):
+                    if p.arg == 'tau' and isinstance(dflt, ast.Constant) and isinstance(dflt.value, float):
+                        litnames[node.name] = i
+    for mod, t in trees.items():
+        for c in ast.walk(t):
+            if isinstance(c, ast.Call):
+                nm = c.func.id if isinstance(c.func, ast.Name) else c.func.attr if isinstance(c.func, ast.Attribute) else None
+                if nm in litnames and 'tau' not in {k.arg for k in c.keywords} and len(c.args) <= litnames[nm]:
+                    lit.append(f'dinosaur/{mod}.py:{c.lineno}: call of {nm} relies on the literal non-dimensional default tau')
     return dict(consts={k: sorted(v) for k, v in consts.items() if v}, module_scales={k: sorted(v) for k, v in mscales.items() if v},
                 funcs=funcs, ncalls=ncalls, bad=sorted(set(bad)), body_uses=sorted(set(body_uses)), unparsed=unparsed, literal_defaults=lit)
 
